@@ -186,6 +186,18 @@ Theorem C01_measurement_block :
 Proof. exact: measurement_block. Qed.
 Print Assumptions C01_measurement_block.
 
+(* the guard `lsubmx Gm = 0` (no leads of transition variables in measurement equations) cannot be dropped: the code
+   keeps only system.G[:, num_forwards:], and for  o = x{+1} + 1  the computed (Z, H, D) violates the equation *)
+Theorem C01_measurement_leads_refuted :
+  exists (Fm : 'M[rat_fieldType]_1) (Gm : 'M[rat_fieldType]_(1, 1 + 1)) (Hc : 'cV[rat_fieldType]_1)
+         (Jm : 'M[rat_fieldType]_(1, 0)) (Ua : 'M[rat_fieldType]_1)
+         (f : 'cV[rat_fieldType]_1) (xi : 'cV[rat_fieldType]_1) (w : 'cV[rat_fieldType]_0),
+  let ms := @solve_measurement (MCOps rat_fieldType) 1 1 1 0 Fm Gm Hc Jm Ua in
+  Fm \in unitmx /\
+  Fm *m (ms_Z ms *m xi + ms_H ms *m w + ms_D ms) + Gm *m col_mx f xi + Hc + Jm *m w != 0.
+Proof. exact: measurement_leads_refuted. Qed.
+Print Assumptions C01_measurement_leads_refuted.
+
 (* 8. Blanchard-Kahn verdict and eigenvalue classes, over the predicates regenerated from fords/solutions.py *)
 Theorem C01_verdict_iff_count :
   forall (ks : list ekind) (nf : nat),
